@@ -66,6 +66,20 @@ def r1(ctx, F, rule, sfx):
     back_ok = sc.header not in cfg.reachable_from(some_arm, avoid={sc.clip_block}) or some_arm == sc.header
     ctx.check(rule, 'every-candidate-is-clipped' + sfx, back_ok, 'paths Some-arm(bb%d) -> loop header(bb%d) avoiding the clip call(bb%d): %s' % (some_arm, sc.header, sc.clip_block, 'none' if back_ok else 'exist'),
               'none', where(b, sc.clip_term['line']), key_extra='bypass')
+    # stream provenance: the loop consumes the neighbour stream argument itself; the only items not offered to the
+    # clip are those consumed explicitly before the loop (the self item); no filtering/truncating adaptor in between
+    nev = [e for e in sc.ip.events if e.term is nt]
+    if len(nev) != 1:
+        raise AnalysisIncomplete('stream read evaluated %d times' % len(nev))
+    chain, src = loop_stream(sc.ip, nev[0])
+    names = [n for n, _ in chain]
+    consumed = names.count('mut:next')
+    skipped = [a for n, a in chain if n == 'skip']
+    other = [n for n in names if n not in ('into_iter', 'mut:next', 'by_ref', 'skip')]
+    nskip = consumed + sum(int(as_rf(a[0]).const_value()) if a and isinstance(a[0], RF) and a[0].is_const() else 99 for a in skipped)
+    ok_stream = repr(src) == 'nn' and not other and nskip == 1
+    ctx.check(rule, 'loop-consumes-the-whole-candidate-stream' + sfx, ok_stream, 'stream: %s over %r; items consumed before the loop: %d' % (' <- '.join(names), src, nskip),
+              'the neighbour stream argument minus exactly its first item (the generator itself), no filtering adaptor', where(b, nt['line']), key_extra='stream:%s' % ','.join(other or ['skip%d' % nskip]))
     # abstract part: the clip is guarded only by "item is Some" and the negated termination test
     if len(sc.clip_events) != 1:
         raise AnalysisIncomplete('clip call evaluated %d times' % len(sc.clip_events))
